@@ -29,3 +29,8 @@ CLAIMED["C18"] = dict(
     text="Decides the structural facts behind 'never under-counts' and 'admission follows estimates': increment and frequency address identical (word, nibble) counters as normalised expressions; block/blockMask/table-length agreement; 4-bit saturating add by exactly one in the right nibble; 4-bit masked minimum; whole-table halving with the 0x7777.. mask; zero/no-op before initialisation; admit's decision table (strictly greater, else 1/128 draw only for estimate >= threshold) and the candidate/victim binding and eviction choice at its call site. Does not decide the arithmetic theorem over all hashes.",
     note=TB + "Assumes Go uint64 arithmetic and purity of hash/rehash.",
     ref="DESIGN.md §4 C18")
+CLAIMED["C13"] = dict(
+    technique="static analysis: edge-dominance guards on unsigned deadline arithmetic, per-iteration path counting in the sweep loop, call-order dominance in maintenance, guarded-call tables for task replay",
+    text="Decides structural necessary conditions of timely sweeping: no wrap-around in deadline - wheelTime (ordering test or clamp, and the clamped value feeds slot selection); every unlinked timer is expired or re-added exactly once; expire only on deadline < wheel time with that time passed on; wheel clock advanced before sweeping and every level with a changed tick swept; maintenance replays writes (and the caller's task) before sweeping with a fresh clock sample; task replay schedules alive nodes / unschedules old ones. Does not decide the bucket/span/shift arithmetic, cascading or the 1.08 s bound.",
+    note=TB + "Assumes a monotonic clock between sweeps.",
+    ref="DESIGN.md §4 C13")
